@@ -1,6 +1,8 @@
 package checks
 
 import (
+	"sync/atomic"
+	"io"
 	"context"
 	"errors"
 	"fmt"
@@ -112,6 +114,11 @@ func runC11(c *Ctx) bool {
 		for _, op := range c11Ops {
 			emit(&Case{Kind: "silent-reader", Opt: map[string]string{"op": op}, Seed: gen.New(c.Seed, 1110, uint64(idx)).Uint64()})
 		}
+		// (7b) a reader that never ends (a stream): once the cancelled call has returned, nobody may
+		// go on reading from it
+		for _, op := range []string{"text", "json", "walk", "dryrun"} {
+			emit(&Case{Kind: "endless-reader", Opt: map[string]string{"op": op}, Seed: gen.New(c.Seed, 1112, uint64(idx)).Uint64()})
+		}
 		// (8) a writer that accepts nothing (its first Write blocks) while the context expires or is cancelled
 		for _, op := range []string{"text", "json", "yaml", "dryrun"} {
 			emit(&Case{Kind: "silent-writer", Opt: map[string]string{"op": op}, Seed: gen.New(c.Seed, 1111, uint64(idx)).Uint64()})
@@ -156,6 +163,7 @@ type c11Exec struct {
 	root     *gtree.Node
 	ctx      context.Context
 	reader   *mon.FaultReader
+	readerAny io.Reader // used instead of reader when set
 	writer   *mon.RecWriter
 	cbFailAt int // walk: callback fails at this visit (<0 never)
 	target   string
@@ -192,6 +200,10 @@ func (e *c11Exec) run(lm *mon.LeakMonitor) {
 	if e.reader == nil {
 		e.reader = &mon.FaultReader{Doc: e.doc, K: -1}
 	}
+	var rdr io.Reader = e.reader
+	if e.readerAny != nil {
+		rdr = e.readerAny
+	}
 	var nrows int
 	var mu = make(chan struct{}, 1)
 	cb := func(*gtree.WalkerNode) error {
@@ -222,13 +234,13 @@ func (e *c11Exec) run(lm *mon.LeakMonitor) {
 		case e.fromRoot:
 			e.err = gtree.OutputFromRoot(e.writer, e.root, opts...)
 		case e.op == "walk":
-			e.err = gtree.WalkFromMarkdown(e.reader, cb, opts...)
+			e.err = gtree.WalkFromMarkdown(rdr, cb, opts...)
 		case e.op == "mkdir":
-			e.err = gtree.MkdirFromMarkdown(e.reader, opts...)
+			e.err = gtree.MkdirFromMarkdown(rdr, opts...)
 		case e.op == "verify":
-			e.err = gtree.VerifyFromMarkdown(e.reader, opts...)
+			e.err = gtree.VerifyFromMarkdown(rdr, opts...)
 		default:
-			e.err = gtree.OutputFromMarkdown(e.writer, e.reader, opts...)
+			e.err = gtree.OutputFromMarkdown(e.writer, rdr, opts...)
 		}
 	}, 60*time.Second)
 	if e.onReturn != nil {
@@ -492,6 +504,13 @@ func evalC11(c *Ctx, cs *Case, lm *mon.LeakMonitor) {
 		}
 		for k := 0; k <= len(doc); k += stride {
 			ctx, cancel := context.WithCancel(context.Background())
+			if k%3 == 1 {
+				// a context that carries an application-level CAUSE: the call must still return the
+				// context's error (context.Canceled), not the cause
+				cctx, ccancel := context.WithCancelCause(context.Background())
+				ctx, cancel = cctx, func() { ccancel(errors.New("server is shutting down")) }
+				c.Count("contexts_with_a_cause", 1)
+			}
 			rd := &mon.FaultReader{Doc: []byte(doc), K: -1, Chunk: 1 + (k % 23)}
 			kk := k
 			if kk == 0 {
@@ -735,6 +754,46 @@ func evalC11(c *Ctx, cs *Case, lm *mon.LeakMonitor) {
 			}
 		}
 
+	case cs.Kind == "endless-reader":
+		for i := 0; i < c.Pick(3, 10); i++ {
+			ctx, cancel := context.WithCancel(context.Background())
+			er := &endlessReader{heading: i%2 == 0, stopAfter: 400000}
+			cutoff := 200 + r.Intn(3000)
+			er.onRead = func(n int) {
+				if n >= cutoff {
+					cancel()
+				}
+			}
+			e := &c11Exec{op: op, ctx: ctx, cbFailAt: -1, sched: mon.NewSched(mon.ProfNone, r.Uint64())}
+			e.readerAny = er
+			var atReturn, later int64
+			e.onReturn = func() {
+				atReturn = er.reads.Load()
+				time.Sleep(30 * time.Millisecond)
+				later = er.reads.Load()
+			}
+			cs.N = []int{i}
+			c.Rejournal(cs)
+			e.run(lm)
+			er.stop.Store(true) // from now on the stream ends, so that whatever still reads can finish
+			c.Eval(key("endless"+strconv.Itoa(i)), true)
+			c.Count("endless_reader_calls", 1)
+			det := map[string]any{"run": i, "reads_at_return": atReturn, "reads_30ms_later": later, "heading_roots": er.heading}
+			ok := c11Judge(c, cs, e, det)
+			if e.guard.Returned {
+				if !errors.Is(e.err, context.Canceled) {
+					det["err"] = errStr(e.err)
+					c.Violation(cs, "cancel.error-is-not-the-contexts", op, det)
+				} else if later > atReturn+2 {
+					c.Violation(cs, "reads-after-return", op, det)
+				}
+			}
+			cancel()
+			if !ok {
+				recycle()
+			}
+		}
+
 	case cs.Kind == "silent-writer":
 		_, doc := c11Doc(r, r.Range(2, 8), nil, "")
 		for i := 0; i < c.Pick(3, 10); i++ {
@@ -875,4 +934,35 @@ func evalC11(c *Ctx, cs *Case, lm *mon.LeakMonitor) {
 			}
 		}
 	}
+}
+
+// endlessReader produces a document that never ends: one root and then children forever (after a
+// "# root" heading every list line is a child, so no new block ever starts), or roots forever.
+type endlessReader struct {
+	heading   bool
+	n         int
+	reads     atomic.Int64
+	stop      atomic.Bool
+	stopAfter int64
+	onRead    func(n int)
+}
+
+func (r *endlessReader) Read(p []byte) (int, error) {
+	k := r.reads.Add(1)
+	if r.stop.Load() || k > r.stopAfter {
+		return 0, io.EOF
+	}
+	line := "- item\n  - child\n"
+	if r.heading {
+		line = "- a child of the only root\n"
+		if r.n == 0 {
+			line = "# the only root\n"
+		}
+	}
+	n := copy(p, line)
+	r.n += n
+	if r.onRead != nil {
+		r.onRead(r.n)
+	}
+	return n, nil
 }
